@@ -37,6 +37,7 @@ type c07Input struct {
 	DstTables    []int      `json:"dstTables"`
 	DstCommits   []int      `json:"dstCommits"`
 	Seed         int64      `json:"genSeed"` // the scenario is rebuilt from this seed on replay
+	Dishonest    bool       `json:"dishonest"` // a commit needed by a later one was left out of toSend
 }
 
 type c07World struct {
@@ -227,6 +228,25 @@ func buildC07(seed int64, thorough bool) (*c07World, error) {
 	if len(w.in.ToSend) > 0 && r.Intn(4) == 0 {
 		k := r.Intn(len(w.in.ToSend))
 		w.in.ToSend = append(w.in.ToSend[:k+1], w.in.ToSend[k:]...)
+	}
+	if len(w.in.ToSend) > 1 && r.Intn(5) == 0 {
+		// a dishonest (or buggy) sender: one commit that a later one needs is left out; the receiver
+		// must refuse the child (whichever position the missing parent has in its parent list)
+		cand := []int{}
+		for i, id := range w.in.ToSend {
+			for _, later := range w.in.ToSend[i+1:] {
+				for _, p := range byID[later].Parents {
+					if p == id {
+						cand = append(cand, i)
+					}
+				}
+			}
+		}
+		if len(cand) > 0 {
+			k := cand[r.Intn(len(cand))]
+			w.in.ToSend = append(append([]int{}, w.in.ToSend[:k]...), w.in.ToSend[k+1:]...)
+			w.in.Dishonest = true
+		}
 	}
 	for t := range ts {
 		w.in.TablesToSend = append(w.in.TablesToSend, t)
